@@ -828,8 +828,16 @@ def _pbkdf2_ref(orc, pw, salt, count, n):
         out += t; i += 1
     return out[:n]
 
+def _pbkdf_source(ctx):
+    """TJ.Props.C14Gen: the terms REGENERATED from src/tinyjambu-pbkdf2.c (tinyjambu_pbkdf2, tinyjambu_pbkdf2_f) over the regenerated HMAC and hash compute RFC 8018 PBKDF2"""
+    import taint
+    ok, stats = taint.regenerate(ctx, ('TJ.Props.C14Gen',))
+    ctx.extra_cov['minic'] = {k: stats.get(k) for k in ('functions', 'translated', 'errors', 'build_ok')}
+    if stats.get('errors'): ctx.broken_proofs.append('tools/c2lean.py cannot translate the current sources: ' + '; '.join(stats['errors'][:3]))
+    elif not ok: ctx.broken_proofs.append('TJ.Props.C14Gen (regenerated tinyjambu_pbkdf2 and its callees = RFC 8018 over the library HMAC) no longer checks: ' + re.sub(r'\s+', ' ', stats.get('build_log_tail', ''))[-600:])
+
 def check_C14(ctx):
-    ctx.lean(); ctx.build()
+    ctx.build(); _pbkdf_source(ctx); ctx.lean(extra_modules=['TJ.Props.C14Gen'])
     ctx.equality_streams.update({'pbkdf2': 'TJ.Props.C14.pbkdf2_rfc8018', 'pbkdf2-prefix': 'TJ.Props.C14.pbkdf2_rfc8018'})
     g = ctx.g; cases = []
     counts = [0, 1, 2, 3, 4, 5, 7, 10, 33, 64] + ([300] if ctx.tier == 'quick' else [300, 1000, 4096])
